@@ -560,5 +560,24 @@ pub proof fn lemma_first_idx(s: Seq<char>, p: Seq<char>)
     lemma_first_unique(s, p, k);
 }
 
+/// a text has at most as many lines as characters
+pub proof fn lemma_nl_pos_bound(s: Seq<char>)
+    ensures 0 <= nl_pos(s) <= s.len()
+    decreases s.len()
+{
+    if s.len() > 0 && s[0] != '\n' { lemma_nl_pos_bound(s.subrange(1, s.len() as int)); }
+}
+pub proof fn lemma_lines_len_le(s: Seq<char>)
+    ensures lines_spec(s).len() <= s.len()
+    decreases s.len()
+{
+    reveal_with_fuel(lines_spec, 1);
+    if s.len() > 0 {
+        lemma_nl_pos_bound(s);
+        let i = nl_pos(s);
+        if i < s.len() { lemma_lines_len_le(s.subrange(i + 1, s.len() as int)); }
+    }
+}
+
 } // verus!
 } // mod lem
